@@ -87,7 +87,7 @@ M = [
     ("c10_dup_not_stored", "C10", "client/client.go", "\tif publish.Message.QOS == 2 {\n\t\t// store packet\n\t\terr := c.Session.SavePacket(session.Incoming, publish)\n\t\tif err != nil {\n\t\t\treturn c.die(err, true)\n\t\t}\n", "\tif publish.Message.QOS == 2 {\n\t\t// store packet\n\t\tvar err error\n\t\tif !publish.Dup {\n\t\t\terr = c.Session.SavePacket(session.Incoming, publish)\n\t\t}\n\t\tif err != nil {\n\t\t\treturn c.die(err, true)\n\t\t}\n"),
     ("c10_reject_still_acks", "C10", "client/client.go", "\t\t\terr := c.Callback(&publish.Message, nil)\n\t\t\tif err != nil {\n\t\t\t\treturn c.die(err, true)\n\t\t\t}\n\t\t}\n\t}\n\t// handle qos 1 flow", "\t\t\terr := c.Callback(&publish.Message, nil)\n\t\t\tif err != nil {\n\t\t\t\tif publish.Message.QOS == 1 {\n\t\t\t\t\t_ = c.send(&packet.Puback{ID: publish.ID}, false)\n\t\t\t\t}\n\t\t\t\treturn c.die(err, true)\n\t\t\t}\n\t\t}\n\t}\n\t// handle qos 1 flow"),
     ("c10_callback_on_publish_too", "C10", "client/client.go", "\tif publish.Message.QOS <= 1 || c.earlyCallback {", "\tif publish.Message.QOS <= 1 || c.earlyCallback || publish.Dup {"),
-    ("c08_closing_drops_with_room", "C08", "broker/backend.go", "\t\t\t\tselect {\n\t\t\t\tcase queue(sess) <- msg:\n\t\t\t\tdefault:\n\t\t\t\t\tselect {\n\t\t\t\t\tcase queue(sess) <- msg:\n\t\t\t\t\tcase <-sess.activeClient.Closing():\n\t\t\t\t\t}\n\t\t\t\t}\n", "\t\t\t\tselect {\n\t\t\t\tcase queue(sess) <- msg:\n\t\t\t\tcase <-sess.activeClient.Closing():\n\t\t\t\t}\n"),
+    ("c08_closing_drops_with_room", "C08 C13", "broker/backend.go", "\t\t\t\tselect {\n\t\t\t\tcase queue(sess) <- msg:\n\t\t\t\tdefault:\n\t\t\t\t\tselect {\n\t\t\t\t\tcase queue(sess) <- msg:\n\t\t\t\t\tcase <-sess.activeClient.Closing():\n\t\t\t\t\t}\n\t\t\t\t}\n", "\t\t\t\tselect {\n\t\t\t\tcase queue(sess) <- msg:\n\t\t\t\tcase <-sess.activeClient.Closing():\n\t\t\t\t}\n"),
     # ---- C09
     ("c09_accessor_assert", "C09", "client/futures.go", "\tsuback, _ := f.Result().(*packet.Suback)", "\tsuback := f.Result().(*packet.Suback)"),
     ("c09_close_waits", "C09 C17", "client/client.go", "\tif c.started {\n\t\tc.tomb.Kill(nil)", "\tif c.started || true {\n\t\tc.tomb.Kill(nil)"),
